@@ -71,18 +71,19 @@ def gen_cases(tier, seed):
     reps = 8 if tier == "quick" else 80
     cases = []
     for pair in discover_pairs():
-        for direction in ("from-receivers", "from-partner"):
-            for rep in range(reps):
+        for direction in ("from-receivers", "from-partner", "at-creation"):
+            for rep in range(reps if direction != "at-creation" else max(reps // 2, 2)):
                 cases.append({"kind": "pair", "pair": list(pair), "direction": direction, "steps": 6 + (rep % 4) * 3 if tier == "quick" else 8 + (rep % 5) * 3, "rep": rep})
     return cases
 
 
 # ------------------------------------------------------------------------------------------
-def build_pair(ws, pair, rng, parent=None):
+def build_pair(ws, pair, rng, parent=None, link_at_creation=False):
     from geoh5py import objects
 
     name, rxn, txn, kind = pair
     kw = {"parent": parent} if parent is not None else {}
+    partner_kw = {"dc": "current_electrodes", "tipper": "base_stations"}.get(kind, "transmitters")
     if kind == "large":
         vertices, tx_loops, tx_id, tx_cells, count = [], [], [], [], 0
         for ind in range(2):
@@ -112,10 +113,15 @@ def build_pair(ws, pair, rng, parent=None):
                 continue
             dipoles.append(ids)
             cid.append(val)
-        potentials = getattr(objects, rxn).create(ws, name="potentials", vertices=vertices, cells=np.vstack(dipoles).astype("uint32"), **kw)
+        pkw = {partner_kw: currents} if link_at_creation else {}
+        potentials = getattr(objects, rxn).create(ws, name="potentials", vertices=vertices, cells=np.vstack(dipoles).astype("uint32"), **kw, **pkw)
         return potentials, currents, {"ab": np.hstack(cid).astype("int32")}
     n = 6
     verts = np.c_[np.linspace(0, 50, n), np.zeros(n), np.zeros(n)]
+    if link_at_creation:
+        tx = getattr(objects, txn).create(ws, vertices=verts + (5.0 if kind != "tipper" else 0.0), name="tx", **kw)
+        rx = getattr(objects, rxn).create(ws, vertices=verts, name="rx", **kw, **{partner_kw: tx})
+        return rx, tx, {}
     rx = getattr(objects, rxn).create(ws, vertices=verts, name="rx", **kw)
     tx = getattr(objects, txn).create(ws, vertices=verts + (5.0 if kind != "tipper" else 0.0), name="tx", **kw)
     return rx, tx, {}
@@ -179,7 +185,8 @@ def judge_pair(rec, ws, pair, rx, tx, where, attr=""):
     """Symmetry, getters and file clauses for one linked pair."""
     cls = pair[0]
     section, krx, ktx = meta_keys(pair)
-    mr, mt = rx.metadata, tx.metadata
+    own = ("Coordinate Reference System",)  # what an entity says about itself, not about the pair
+    mr, mt = ({k: v for k, v in (m or {}).items() if k not in own} for m in (rx.metadata, tx.metadata))
     rec.check("C20.asymmetric", canon(mr) == canon(mt), op=where, cls=cls, attr=attr or "metadata", detail=f"metadata differ between the partners: rx {short(canon(mr), 300)} tx {short(canon(mt), 300)}")
     body = (mr or {}).get(section, {}) if section else (mr or {})
     ok_ids = str(body.get(krx)) == str(rx.uid) and str(body.get(ktx)) == str(tx.uid)
@@ -193,6 +200,8 @@ def judge_pair(rec, ws, pair, rx, tx, where, attr=""):
         fr, ft = raw_metadata(ws, rx), raw_metadata(ws, tx)
     except Exception:  # noqa: BLE001
         return
+    if isinstance(fr, dict) and isinstance(ft, dict):
+        fr, ft = ({k: v for k, v in m.items() if k not in own} for m in (fr, ft))
     same = fr == ft and fr is not None
     txt = json.dumps(fr or {})
     both = str(rx.uid) in txt and str(tx.uid) in txt
@@ -275,8 +284,18 @@ def run_case(case, rec):
         ws2 = Workspace.create(path2)
         home = ContainerGroup.create(ws, name="home")
         other = ContainerGroup.create(ws, name="other")
-        rx, tx, extra = build_pair(ws, pair, rng, parent=home)
-        link(pair, rx, tx, direction, extra)
+        if direction == "at-creation" and pair[3] not in ("large", "dc"):  # a potential electrode cannot name its partner before it is registered itself (the library refuses with a KeyError): linked afterwards
+            # the partner is named in the call that creates the entity (the link is made while the entity is being built)
+            rx, tx, extra = build_pair(ws, pair, rng, parent=home, link_at_creation=True)
+            rec.see("links-made-at-creation")
+        else:
+            rx, tx, extra = build_pair(ws, pair, rng, parent=home)
+            link(pair, rx, tx, direction if direction != "at-creation" else "from-receivers", extra)
+        if pair[3] == "dc" and case["rep"] % 3 == 0:
+            # projects that went through ANALYST carry a coordinate reference system: a nested section next to the flat link keys
+            side = rng.choice([rx, tx])
+            side.coordinate_reference_system = {"Code": "EPSG:26917", "Name": "NAD83 / UTM zone 17N"}
+            rec.see("electrodes-with-crs")
         rec.see("pairs-x-directions") if case["rep"] == 0 else None
         menu = edits_for(pair, rx)
         expected = {}
